@@ -32,9 +32,14 @@ type vmTopic struct {
 	Terr  int16    `json:"terr"`
 	Parts []vmPart `json:"parts"`
 }
+type vmPrev struct {
+	Name string `json:"name"`
+	ID   int    `json:"id"`
+}
 type vmInput struct {
 	Kind  string    `json:"kind"`
 	Snap  []vmTopic `json:"snap"`
+	Prev  []vmPrev  `json:"prev"` // topics (name, id) of the cluster metadata the proxy's caches were refreshed from earlier
 	Mode  string    `json:"mode"`
 	Names []string  `json:"names"`
 	Ids   []int     `json:"ids"`
@@ -164,11 +169,29 @@ func TestVerifProxyMetaReplay(t *testing.T) {
 			}
 			state.Topics = append(state.Topics, mt)
 		}
-		p := &proxy{
-			store:          metadata.NewInMemoryStore(state),
-			advertisedHost: vmProxyHost,
-			advertisedPort: vmProxyPort,
-			logger:         logger,
+		var p *proxy
+		if len(inp.Prev) == 0 {
+			// cold proxy: caches never filled
+			p = &proxy{store: metadata.NewInMemoryStore(state), advertisedHost: vmProxyHost, advertisedPort: vmProxyPort, logger: logger}
+		} else {
+			// long-lived proxy: (1) the cluster as it was, (2) the real cache refresh (what initMetadataCache, its 10 s
+			// ticker and every cache miss run), (3) the cluster changes to the current snapshot, (4) the request below
+			before := metadata.ClusterMetadata{ControllerID: 1, ClusterID: &clusterID, Brokers: state.Brokers}
+			for _, pt := range inp.Prev {
+				before.Topics = append(before.Topics, protocol.MetadataTopic{
+					Topic: kmsg.StringPtr(pt.Name), TopicID: vmID(pt.ID),
+					Partitions: []protocol.MetadataPartition{{Partition: 0, Leader: 1, LeaderEpoch: 1, Replicas: []int32{1, 2}, ISR: []int32{1}}},
+				})
+			}
+			store := metadata.NewInMemoryStore(before)
+			p = &proxy{store: store, advertisedHost: vmProxyHost, advertisedPort: vmProxyPort, logger: logger}
+			p.refreshMetadataCache(ctx)
+			for _, pt := range inp.Prev {
+				if got := p.resolveTopicID(ctx, vmID(pt.ID)); got != pt.Name {
+					t.Fatalf("input %d: cache refresh did not learn %s (got %q)", n, pt.Name, got)
+				}
+			}
+			store.Update(state)
 		}
 		corr := int32(7000 + n)
 		var reply map[string]any
